@@ -78,6 +78,10 @@ func verifyFuncMode(p *Program, fc *FuncContract, prop string, unroll int) (u *U
 	cx := x.newCtx(fi, fc)
 	x.cx = cx
 	frameObligations(p, x, fi, fc)
+	if needsTermination(fc) && len(fc.Measure) == 0 && unroll == 0 && !fc.Flags["frameonly"] && p.OnDirectCycle(fi) {
+		// C02 units: a recursive function without a measure is an undischarged termination obligation
+		w.Oblige(x.oblName("recursion/variant:missing", ""), "variant", True, False)
+	}
 	// loops named in the contract must exist
 	for ord := range fc.Loops {
 		if ord >= len(cx.loopOrd) {
@@ -140,6 +144,18 @@ func verifyFuncMode(p *Program, fc *FuncContract, prop string, unroll int) (u *U
 		envs = append(envs, r.env)
 	}
 	exit := x.merge(envs)
+	for i := len(cx.defers) - 1; i >= 0; i-- {
+		d := cx.defers[i]
+		if m, ok := exit.vars[d.obj]; ok && w.IsMap(m.Sort) {
+			dom, _ := w.Field(m, "dom")
+			val, _ := w.Field(m, "val")
+			card, _ := w.Field(m, "card")
+			nv := w.Mk(m.Sort, Store(dom, d.key, False), val, Ite(Select(dom, d.key), Arith("-", card, IntLit(1)), card))
+			r := Ite(d.pc, nv, m)
+			r.GoT = m.GoT
+			exit.vars[d.obj] = r
+		}
+	}
 	names := contractResultNames(fi, fc)
 	post := x.scopeAt(exit, fi.Decl.Body.Rbrace)
 	for i, rv := range cx.results {
